@@ -446,7 +446,52 @@ def tajd_calls(ts, a, rng, S):
     return out
 
 
-EXTRA = [afs_call, afs_call, fst_call, relatedness_call, general_call, general_call, gnn_call, meandesc_call, paircoal_call, treedist_call]
+def traitcov_call(ts, a, rng, S):
+    n = len(S)
+    if n < 2:
+        return None
+    W = [[rng.randint(-2, 3), rng.randint(-2, 3)] for _ in S]
+    mode = rng.choice(["site", "branch"])
+    sn = rng.random() < 0.5
+    windows, warg = pick_windows(rng, a["L"])
+    D = 2 * n * n * (n - 1) * (n - 1) if mode == "branch" else n * n * 2 * (n - 1) * (n - 1)
+
+    def run(w, wa):
+        r = np.array(ts.trait_covariance(np.array(W, dtype=float), windows=wa, mode=mode, span_normalise=sn), dtype=float).reshape((len(w) - 1, 2))
+        # branch: sum of 2 v^2 / (2 (n-1)^2 n^2) -> x D gives 2 v^2 n^0...; both modes are compared as  value * 2 n^2 (n-1)^2 / (1 or 2)
+        return [[scaled(r[q][k], n * n * (n - 1) * (n - 1) * (2 if mode == "site" else 2), (w[q + 1] - w[q]) if sn else 1) for k in range(2)] for q in range(len(w) - 1)]
+    c = base("traitcov", "trait_covariance", mode, span_normalise=1 if sn else 0, windows=windows, weights=W, result=run(windows, warg))
+    if a["L"] > 1 and rng.random() < 0.5:
+        fw = refine(rng, windows, a["L"])
+        c["fine_windows"] = fw
+        c["fine_result"] = run(fw, [float(x) for x in fw])
+    return c
+
+
+def grw_call(ts, a, rng, S):
+    n = len(S)
+    W = [[rng.randint(-2, 3), rng.randint(-2, 3)] for _ in S]
+    indexes = [list(p) for p in rng.sample([(0, 0), (0, 1), (1, 0), (1, 1)], rng.randint(1, 2))]
+    mode = rng.choice(["site", "branch"])
+    sn = rng.random() < 0.5
+    pol = rng.random() < 0.5
+    centre = rng.random() < 0.6
+    windows, warg = pick_windows(rng, a["L"])
+
+    def run(w, wa):
+        r = np.array(ts.genetic_relatedness_weighted(np.array(W, dtype=float), indexes=[tuple(i) for i in indexes], windows=wa, mode=mode, span_normalise=sn,
+                                                     polarised=pol, centre=centre), dtype=float).reshape((len(w) - 1, len(indexes)))
+        return [[scaled(r[q][i], n * n if centre else 1, (w[q + 1] - w[q]) if sn else 1) for i in range(len(indexes))] for q in range(len(w) - 1)]
+    c = base("grw", "genetic_relatedness_weighted", mode, polarised=1 if pol else 0, centre=1 if centre else 0, span_normalise=1 if sn else 0, windows=windows,
+             weights=W, indexes=indexes, result=run(windows, warg))
+    if a["L"] > 1 and rng.random() < 0.5:
+        fw = refine(rng, windows, a["L"])
+        c["fine_windows"] = fw
+        c["fine_result"] = run(fw, [float(x) for x in fw])
+    return c
+
+
+EXTRA = [traitcov_call, grw_call, afs_call, afs_call, fst_call, relatedness_call, general_call, general_call, gnn_call, meandesc_call, paircoal_call, treedist_call]
 
 
 def nonzero(r):
@@ -602,7 +647,7 @@ def run():
     chk.rule = ("random ts (3-7 nodes, integer coordinates and times, multiallelic / recurrent sites, multiple roots, internal samples, gaps) x 9 named "
                 "statistics and sample_count_stat (polarised or not) x site/branch/node x integer / 'trees' / 'sites' / no windows x span_normalise, random "
                 "window refinements, divergence_matrix with num_threads in {0,1,2,3,5,8}; allele_frequency_spectrum (1-2 sets, site/branch, polarised/folded), "
-                "Fst, genetic_relatedness (centre, polarised), general_stat with integer weights (3 summary functions, site/branch/node), "
+                "Fst, genetic_relatedness (centre, polarised), trait_covariance and genetic_relatedness_weighted with integer weights, general_stat with integer weights (3 summary functions, site/branch/node), "
                 "genealogical_nearest_neighbours (threads 0-3), mean_descendants, pair_coalescence_counts, Tree.rf_distance / kc_distance (lambda 0, 1), "
                 "LdCalculator r2 / r2_matrix / ts.ld_matrix on single-mutation sites, Tajimas_D (formula in floating point over TLC-validated ingredients); "
                 "non-trivial = some non-zero result")
@@ -611,7 +656,7 @@ def run():
                        "Fanout model bounded to <=6 items / <=5 threads",
                        "pair coalescence: a pair joins at u when it comes from two different child subtrees of u (a sample does not coalesce with its own descendants)",
                        "folded spectra: which of two complementary coordinates of equal total holds the mass is not constrained",
-                       "not covered: trait_covariance / trait_correlation / trait_linear_model, genetic_relatedness_weighted / _vector, proportion=True, "
+                       "not covered: trait_correlation / trait_linear_model, genetic_relatedness_vector, proportion=True, "
                        "time-windowed pair coalescence (floating point / linear algebra; see DESIGN 5)"]
     return chk.finish()
 
